@@ -377,14 +377,19 @@ def rules(repo=None):
 
 
 EXPLANATION = (
-    "Protocol argument for all interleavings of two processes sharing only the directory tree. P1-P7 = C02.R1-R7 (tmp-name "
-    "provenance, close-before-rename typestate, no writer of final names, staged creation, grammars exclude tmp.). R1: no path "
-    "in the call graph from any DigitalRFReader / listing entry point to a file-system mutator. R2: get_bounds skips files that "
-    "fail to open; _read tolerates a file that is not there (os.access probe, or a caught IOError of the open) and opens "
-    "read-only. R3: the per-file cache is keyed by the full path, all of it is refreshed when the path changes, and once the "
-    "cached handle is closed the key is re-assigned or cleared before the iteration can be left without a successful open (no key "
-    "naming a closed file). R4: one read call sees a prefix of the files finalized: the existence probes of _read form a newest-first pass that is complete before any file is opened. With POSIX rename atomicity these imply that a reader sees exactly the finalized "
-    "files and that set only grows. Does NOT decide failures outside the protocol (EMFILE, permissions) or timing.")
+    'Protocol argument for all interleavings of two processes sharing only the directory tree. P1-P7 = C02.R1-R7 (tmp-'
+    'name provenance, close-before-rename typestate, no writer of final names, staged creation, grammars exclude tmp.). '
+    'R1: no path in the call graph from any DigitalRFReader / listing entry point to a file-system mutator. R2: '
+    'get_bounds skips files that fail to open; _read tolerates a file that is not there (os.access probe, or a caught '
+    'IOError of the open) and opens read-only. R3: the per-file cache is keyed by the full path, all of it is refreshed '
+    'when the path changes, and once the cached handle is closed the key is re-assigned or cleared before the iteration '
+    'can be left without a successful open (no key naming a closed file). R4: one read call sees a prefix of the files '
+    'finalized: the existence probes of _read form a newest-first pass that is complete before any file is opened. With '
+    'POSIX rename atomicity these imply that a reader sees exactly the finalized files and that set only grows. R5: the '
+    'per-directory read step (which probes and opens) may not sit in the loop over the top-level directories of read / '
+    'get_continuous_blocks - one snapshot over all directories before anything is read; on the pinned tree it does '
+    '(recorded finding F55, printed as KNOWN-FINDING). Does NOT decide failures outside the protocol (EMFILE, '
+    'permissions) or timing.')
 TECHNIQUE = ("C02's protocol rules + package call graph reachability (read roles), CFG checks of vanished-file tolerance, cache key def-use")
 ASSUMPTIONS = c02.ASSUMPTIONS + ["a finalized RF file is never modified (C02.R3), so cached index data cannot go stale"]
 FILES = c02.FILES
